@@ -1,5 +1,20 @@
 # Claim table: property id -> texts for MANIFEST.json. Edited by hand; gen_manifest.py renders it.
-CLAIMS = {}
+_T = "static analysis of /repo's type-checked source (go/packages+go/types+go/ast): "
+_NOTE = "Trusted base: Go type checker, go/packages loader; the semantics of go-openapi/spec struct tags and JSONLookup methods, jsonpointer.Escape and path.Join as read from their sources; the rule tables in /verif/sa/internal/rules. The rules decide the listed structural clauses for ALL inputs; they do not execute the code and do not establish the behavioural clauses listed under not_decided in the evidence."
+CLAIMS = {
+ "C11": {"text": "Decides, for every position of the document model (enumerated from go/types of go-openapi/spec, not from fixtures) and every schema-bearing keyword of spec.SchemaProps, that the analyzer's index-building code registers a $ref found there under the JSON pointer of its holder, in the index of its kind and in the all-view, guarded only by the $ref being non-empty. Obtained by abstract evaluation of analysis.New over symbolic documents (all branches, loops once with symbolic keys, calls inlined, recursion to depth 2). This is a necessary-and-nearly-sufficient structural argument for completeness/soundness of the reference index; it does not execute anything.",
+         "note": _NOTE + " Not decided: multiplicity under key collisions; shared parameters/responses that are themselves $refs (exempt, outside the quantifier).",
+         "technique": _T + "abstract interpretation of the index-building code over document positions and key token lists; coverage against reference sets read from go/types"},
+ "C12": {"text": "Decides that every schema registration (definitions, nested keywords, parameter and response schemas at every model position) is keyed by exactly the JSON pointer of the schema it stores (constant segments equal the json tags jsonpointer will look up, every map key is pointer-escaped, every index is the loop's own index), that SchemaRef.Ref is created from that same key, that TopLevel is true exactly for entries of #/definitions, and that the allOf view holds exactly the schemas guarded by len(AllOf)>0. Abstract evaluation, all names at once.",
+         "note": _NOTE + " Not decided: behaviour of net/url on the fragment (trusted to round-trip every rune but '%').",
+         "technique": _T + "abstract interpretation of key construction vs. JSON pointer derived from struct tags; exhaustiveness over spec.SchemaProps fields"},
+ "C13": {"text": "Decides that for each owner kind (parameter, header, items, schema) at each model position (shared/path-level/operation parameters, default/status-code/shared response headers, nested items, schemas at any depth) pattern and enum are registered in the matching category index and the all-view under the owner's JSON pointer, guarded exactly by non-emptiness, and that each exported getter reads the index whose registrations have its kind.",
+         "note": _NOTE,
+         "technique": _T + "abstract interpretation of the index-building code; sibling agreement across the ten owner sites; getter/category agreement"},
+ "C14": {"text": "Decides the structural clauses of the operation lookups: all seven *spec.Operation fields of PathItemProps are indexed, each under the upper-cased json tag of its field and the path item's own key, unconditionally for non-nil operations; lookups normalise the method with strings.ToUpper; required consumes/produces/security are fed from the document and from every method's operation; the nil-vs-empty discipline of the precedence rules (security: nil test; consumes/produces: length test).",
+         "note": _NOTE + " Not decided: the values of the union/precedence tables on concrete lists.",
+         "technique": _T + "abstract interpretation of index construction; exhaustiveness over PathItemProps; guard-shape rules on the precedence functions"},
+}
 _UC = "machinery under construction in this session: rules for this property are not registered yet (see DESIGN.md §7 build order)"
 NOT_APPLICABLE = {
     "C05": "Expansion is done by spec.ExpandSpec in another module and which $refs survive depends on the runtime cycle structure of the bundle; no structural clause of this repository's code is both necessary for the statement and statically checkable (DESIGN.md §6)",
